@@ -437,7 +437,7 @@ func runC06(c *core.Ctx) error {
 	defer atomic.StoreInt32(&fast.VerifPoison, 0)
 	gf := 0.03
 	if c.Thorough() {
-		gf = 0.25
+		gf = 0.1
 	}
 	c.Assume("pooled frames are poisoned through the verif hook; correct code never reads a pooled frame, so poisoning is invisible to it (the baseline suite passes with poisoning on)")
 	return RunProgCases(c, cases, ProgOpts{GateFraction: gf, Prelude: c06Prelude, Sig: c06Sig, Reuse: 40})
